@@ -117,8 +117,10 @@ def child_all(ops, final_audit=True, store=None, stop_on_crash=False, alias_rest
             break
         try:
             if alias_restore and op["op"] == "restore":
+                # primary of a lock-step pair: the "restored" handle is the live original itself
                 s.objs[op["h"]] = s.resolve(op["src"])
-                out.append({"alias": True})
+                from . import canon as _C
+                out.append({"obj": _C.canon(s.objs[op["h"]])})
                 continue
             out.append(s.exec(op))
         except worker.OpError as e:
